@@ -303,7 +303,7 @@ func c09r3(c *Ctx, id string) {
 				return true
 			}
 			return cc.IsInvoke() && strings.HasSuffix(shortType(cc.Value.Type()), "logger.Logger")
-		}, map[string]bool{"vBucketNumber": true, "membership": true, "vBucketDiscoveryMetric": true})
+		}, map[string]bool{"vBucketNumber": true, "membership": true, w.discoveryMetricField(): true})
 	}
 	c.Floor(id, 2)
 }
